@@ -14,6 +14,7 @@ from __future__ import annotations
 
 import functools
 import sys
+import threading
 import types
 
 mon = sys.monitoring
@@ -76,7 +77,9 @@ class Probes:
         self.cov_total: dict[str, set[int]] = {}
         self.cov_hit: dict[str, set[int]] = {}
         self.cov_owner: dict[types.CodeType, str] = {}
-        self.in_cb = False
+        # re-entrancy guard per thread: a callback running in one thread must not make other threads skip theirs (the monitors'
+        # own state has to stay consistent when the code under test is driven from several threads)
+        self._tl = threading.local()
         mon.register_callback(TOOL, E.PY_RETURN, self._on_return)
         mon.register_callback(TOOL, E.PY_START, self._on_start)
         mon.register_callback(TOOL, E.LINE, self._on_line)
@@ -88,6 +91,14 @@ class Probes:
         if cls._inst is None:
             cls._inst = Probes()
         return cls._inst
+
+    @property
+    def in_cb(self):
+        return getattr(self._tl, "in_cb", False)
+
+    @in_cb.setter
+    def in_cb(self, v):
+        self._tl.in_cb = v
 
     # ------------------------------------------------------------------
     def _add_local(self, code, ev):
